@@ -13,7 +13,7 @@ RULE = ("Restricted networks: queue capacities {0,1,2} (and inf), fixed servers 
         "longest-blocked ones; Ciw's blocked_queue equals the model; time_blocked equals the monitor's own timestamps; a blocked "
         "customer never completes again.  Non-trivial: >= 1 block and >= 1 unblock; distinct by spec digest.")
 ASSUMPTIONS = ["capacity of a destination = queue capacity + servers from the spec (fixed-server nodes)"]
-WALL = {"quick": 50, "thorough": 540}
+WALL = {"quick": 150, "thorough": 540}
 
 ALLOWED = ["inf", "schedule", "capacity", "priorities", "reneging", "jockeying", "batching", "cc_after", "cc_waiting", "discipline",
            "server_priority", "routing_objects", "process_routing", "flexible_routing", "self_loops", "zero_service", "tracker",
@@ -45,4 +45,4 @@ def profile():
 
 def subchecks(tier):
     return [system_subcheck("restricted", profile(), lambda spec: [Blocking(spec)], nontrivial, classes=classes, obs=True,
-                            n={"quick": 3200, "thorough": 50000}, rule="restricted networks; blocked-order model monitor")]
+                            n={"quick": 9600, "thorough": 50000}, rule="restricted networks; blocked-order model monitor")]
